@@ -487,3 +487,60 @@ func runC09Accuracy(c *Ctx) {
 	}
 	reportK4(c, f, "accuracy on ill-conditioned integer inputs", undec, problem, fmt.Sprintf("within 4 ulps of |ab x ap|/|ab| on %d configurations", len(cases)))
 }
+
+func init() {
+	register(&Rule{
+		ID:    "C09.hypot",
+		Props: []string{"C09", "C12", "C14"},
+		Doc:   "Euclidean norms are not computed as the square root of a sum of squares: in geom and rtree no math.Sqrt is applied to x*x + y*y, to a squared-length helper (lengthSq, distanceSquaredTo) or to w.Dot(w) — the squares underflow to 0 / overflow to +Inf for magnitudes whose norm is perfectly representable (Distance 0 between distinct points, Length 0 or +Inf, EMPTY centroids); math.Hypot is used instead",
+		Floor: 2,
+		Run:   runC09Hypot,
+	})
+}
+
+func runC09Hypot(c *Ctx) {
+	n := 0
+	for _, f := range c.P.Funcs {
+		if pk := pkgOf(f); pk != "geom" && pk != "rtree" {
+			continue
+		}
+		fn := FuncName(f)
+		eachCall(f, func(ci ssa.CallInstruction) {
+			name := calleeName(ci)
+			if name == "math.Hypot" {
+				n++
+				c.OK(ci.Pos(), fn, "Euclidean norm", "math.Hypot")
+				return
+			}
+			if name != "math.Sqrt" {
+				return
+			}
+			arg := stripLoad(ci.Common().Args[0])
+			sumSq := false
+			if add, ok := arg.(*ssa.BinOp); ok && add.Op == token.ADD {
+				sq := func(v ssa.Value) bool {
+					m, ok := v.(*ssa.BinOp)
+					return ok && m.Op == token.MUL && (m.X == m.Y || sameValue(m.X, m.Y))
+				}
+				sumSq = sq(add.X) && sq(add.Y)
+			}
+			if call, ok := arg.(*ssa.Call); ok {
+				cn := calleeName(call)
+				if strings.HasSuffix(cn, ").lengthSq") || strings.HasSuffix(cn, ").distanceSquaredTo") {
+					sumSq = true
+				}
+				if strings.HasSuffix(cn, ").Dot") && len(call.Call.Args) == 2 && sameValue(call.Call.Args[0], call.Call.Args[1]) {
+					sumSq = true
+				}
+			}
+			if !sumSq {
+				return
+			}
+			n++
+			c.Bad(ci.Pos(), fn, "Euclidean norm", "the norm is taken as the square root of a sum of squares: the squares underflow to 0 / overflow to +Inf although the norm itself is representable (use math.Hypot)")
+		})
+	}
+	if n < 2 {
+		c.Errorf("only %d Euclidean norm computations found in geom/rtree, expected >= 2", n)
+	}
+}
